@@ -9,6 +9,21 @@ HERE = os.path.dirname(os.path.dirname(os.path.abspath(__file__)))
 ALL = [f'C{i:02d}' for i in range(1, 21)]
 
 
+AFFECTED = {
+    'gearpy/units/': 'C05 C06 C07 C19 C03 C08 C16',
+    'gearpy/solver.py': 'C01 C02 C03 C04 C11 C12 C13 C14 C16 C17',
+    'dc_motor.py': 'C08 C02 C04 C14 C15 C19 C07 C13',
+    'relations.py': 'C10 C20 C13 C02 C01 C09',
+    'gearpy/powertrain.py': 'C18 C20 C17 C12 C13',
+    'motor_control/': 'C14 C15 C12 C07',
+    'mechanical_objects/': 'C09 C10 C19 C17 C07 C20',
+    'export.py': 'C18 C17',
+    'sensors/': 'C16 C15 C07',
+    'stop_condition': 'C16 C11',
+    'gear_data': 'C09',
+}
+
+
 def sh(cmd):
     return subprocess.run(cmd, shell=True, capture_output=True, text=True)
 
@@ -16,7 +31,19 @@ def sh(cmd):
 def main():
     a = sys.argv[1:]
     pid, n, patch, notes = a[:4]
-    checks = a[a.index('--checks') + 1].split() if '--checks' in a else ALL
+    checks = a[a.index('--checks') + 1].split() if '--checks' in a else None
+    if '--all' in a:
+        checks = ALL
+    if checks is None:
+        # the checks whose subject lives in, or runs through, the files the patch touches (--all runs the 20 of them)
+        touched = [l[6:].strip() for l in open(patch) if l.startswith('+++ b/')]
+        checks = set()
+        for f in touched:
+            for key, cs in AFFECTED.items():
+                if key in f:
+                    checks.update(cs.split())
+        checks.add(pid)
+        checks = sorted(checks)
     bid = f'{pid}-{n}'
     out = os.path.join(HERE, 'benign', bid)
     os.makedirs(out, exist_ok=True)
